@@ -67,7 +67,10 @@ class EnumerableThreadLocal {
                             IsInvocable<C, T*, T*>::value>::type>
   inline void for_each_alive(C&& callback) {
     auto snapshot = _storage.snapshot();
+    uint16_t size = snapshot.size();
     ThreadIdType::template for_each<T>([&](uint16_t begin, uint16_t end) {
+      begin = ::std::min(begin, size);
+      end = ::std::min(end, size);
       snapshot.for_each(begin, end, callback);
     });
   }
